@@ -404,6 +404,40 @@ def r8_sixty_degree_guard(idx, r):
                   f"the remainder is just below `{step}` instead, and the rotation is refused")
 
 
+def at_location_rule(idx, r):
+    """Parameter.atLocation(loc) is EVALUATED for every location word 0..7 of the definition and every queried word 1..7: it is true exactly
+    when the two overlap.  (A subset test would exclude compound locations such as TOP|CORNERS from the corner data that HexBlock.rotate
+    turns.)  Shared with R11.2 / R13.9."""
+    from ..minieval import MiniEval
+    at = idx.method("armi.reactor.parameters.parameterDefinitions.Parameter", "atLocation")
+    q = at.params()[1]
+    bad = []
+    for location in range(8):
+        for loc in range(1, 8):
+            v, _ = MiniEval().run(at.node, {"self.location": location, q: loc})
+            if bool(v) != bool(location & loc):
+                bad.append((location, loc, bool(v)))
+    r.require(not bad, "Parameter.atLocation:true-iff-the-locations-overlap", at,
+              msg=f"(definition's location word, queried word, answer) = {bad[:4]}: a parameter defined at a compound location is not found at its parts (or one defined nowhere is found)")
+
+
+def r9_shared_sites(idx, r):
+    """Sites other properties also depend on, decided here for the symmetry property itself: (a) which boundary data follow a rotation is
+    decided by Parameter.atLocation (evaluated); (b) a grid keeps its offset through reduce() unless all of it is zero - a quarter-core
+    Cartesian grid without centre cell is offset by half a pitch, and its symmetric images are computed with that offset (R07.10);
+    (c) only the 0- and 120-degree lines bound a third core (R13.9)."""
+    from .c07 import r10_reduce_keeps_offset
+    from .c13 import bounding_lines_rule
+    at_location_rule(idx, r)
+    r10_reduce_keeps_offset(idx, r)
+    bounding_lines_rule(idx, r)
+
+
+def r10_pairing(idx, r):
+    from ..pairing import pairing_rule
+    pairing_rule(idx, r, ["armi.reactor.grids", "armi.reactor.blocks", "armi.reactor.assemblies", "armi.utils.hexagon", "armi.utils.iterables"], 100)
+
+
 def run(idx, chk):
     chk.explanation = (
         "C08: the two third-core images and the six index rotations are extracted as integer matrices and shown to equal exact 120/60k degree "
@@ -425,3 +459,7 @@ def run(idx, chk):
                  necessary="rotation by k steps 'composes additively, is the identity at k=6'; orientation moves accordingly")
     chk.run_rule("R08.8", "the 60-degree-increment guard of assembly rotation accepts a floating remainder at either end of the interval", lambda r: r8_sixty_degree_guard(idx, r), floor=1,
                  necessary="rotation by k steps for every integer k (also negative, also k >= 6)")
+    chk.run_rule("R08.9", "atLocation is an overlap test (evaluated); reduce() keeps a partly non-zero offset; only the 0/120-degree lines bound the third core", lambda r: r9_shared_sites(idx, r), floor=3,
+                 necessary="rotating a block turns every corner/edge vector; a re-created grid reports the same symmetric images; a cell and its images are classified alike")
+    chk.run_rule("R08.10", "arguments stand at the parameter they are named after; sibling calls forward the same pass-through parameters", lambda r: r10_pairing(idx, r), floor=1,
+                 necessary="indices and rotation counts reach the parameter they are meant for")
